@@ -522,7 +522,7 @@ Proof. split; reflexivity. Qed.
     Tie: stage [rowid] (real go-sqlite3 vs [SM.exec_seq_count] on [PM.PlanChanges]: rows with their rowids,
     sqlite_sequence). *)
 From Coq Require Import ZArith.
-From Atlas Require Sqlite.EngineModel Sqlite.SeqModel Sqlite.RowsEngine Sqlite.RowsEngineWitness.
+From Atlas Require Sqlite.EngineModel Sqlite.SeqModel Sqlite.RowsEngine Sqlite.RowsEngineWitness Sqlite.PlanProofs Diff.DiffSqlite.
 Module PM := Atlas.Sqlite.PlanModel.
 Module EM := Atlas.Sqlite.EngineModel.
 Module SM := Atlas.Sqlite.SeqModel.
@@ -616,6 +616,50 @@ Theorem C05_sequence_kept_refuted :
 Proof. exact RW.sequence_refuted. Qed.
 Print Assumptions C05_sequence_kept_refuted.
 
+(** 22. The declared type of a column the change set does not modify (coordinator's scenario class, round 5): the
+    rebuilt table declares every column exactly as the desired table does -- the whole [column] record: name, type
+    text, class, nullability, default, generation -- so a column for which the differ reports no type change
+    ([sqlite_type_changed cf col = Some false], diff.typeChanged) is re-created with the *inspected type text* when
+    that text is outside the catalogue of sqlite.ParseType (UserDefinedType: STRING, MONEY, Point3D, ...), and with a
+    type of the same Go class (for the catalogue: the same affinity) otherwise.  Tie: the `create` observation line of
+    every engine stage carries name:type of every column of the CREATE TABLE the Go planner printed; oracle class
+    `untouched-type-rewritten` (stage exhaust, base 4: 16 type texts x 9 values). *)
+Theorem C05_untouched_type_text_kept :
+  forall (from : table) (tox : PM.xtable) (cs : list DM.change) (r : list PM.pchange) (sk : bool)
+         (d : EM.db) (s : SM.seqtab) (d' : EM.db) (s' : SM.seqtab) (cf col : column),
+    PM.alterable (PM.x_t tox) cs = false ->
+    PM.modifyTable from tox cs = Some (r, sk) ->
+    EM.db_fk d = false ->
+    SM.exec_seq_all (d, s) (map PM.pc_cmd r) = EM.Ok (d', s') ->
+    In col (t_cols (PM.x_t tox)) ->
+    Atlas.Diff.DiffSqlite.sqlite_type_changed cf col = Some false ->
+    exists rows', SM.content (PM.x_name tox) d' = Some (t_cols (PM.x_t tox), rows') /\
+      c_class col = c_class cf /\ (c_class cf = Atlas.Diff.DiffSqlite.UDT_CLASS -> c_T col = c_T cf).
+Proof. exact RE.engine_untouched_type_text_kept. Qed.
+Print Assumptions C05_untouched_type_text_kept.
+
+(** 23. The bracket is a fact about [PM.PlanChanges] for ALL schemas and ALL change lists (no premise on the change
+    set, none on the desired schema's foreign keys): a plan that contains a DROP TABLE -- every DropTable change and
+    every rebuild does ([C05_engine_rebuild_has_drop]) -- is [PRAGMA foreign_keys = off :: mid ++ [PRAGMA foreign_keys =
+    on]] with no pragma in [mid].  So the premise of 17 that is about the *plan* is discharged here; what remains in 17
+    is about the *connection* (no transaction open, or enforcement off already), which C05_schema_apply discharges
+    for both --tx-mode's. *)
+Theorem C05_engine_bracket_every_drop :
+  forall (from to : PM.xschema) (cs : list DM.schange) (p : PM.plan),
+    PM.PlanChanges from to cs = Some p ->
+    existsb Atlas.Sqlite.PlanProofs.is_drop_table (PM.plan_stmts p) = true ->
+    exists mid, PM.plan_stmts p = PM.SPragmaFK false :: mid ++ [PM.SPragmaFK true] /\
+                forallb (fun s => negb (Atlas.Sqlite.PlanProofs.is_pragma s)) mid = true.
+Proof. exact RE.engine_bracket. Qed.
+Print Assumptions C05_engine_bracket_every_drop.
+
+Theorem C05_engine_rebuild_has_drop :
+  forall (from : table) (tox : PM.xtable) (cs : list DM.change) (r : list PM.pchange) (sk : bool),
+    PM.alterable (PM.x_t tox) cs = false -> PM.modifyTable from tox cs = Some (r, sk) ->
+    sk = true /\ In (PM.SDropTable (PM.x_name tox)) (map PM.pc_cmd r).
+Proof. exact RE.rebuild_has_drop. Qed.
+Print Assumptions C05_engine_rebuild_has_drop.
+
 (** non-vacuity of 17-19: t(id INTEGER PRIMARY KEY AUTOINCREMENT, v text) and p(a text, v text), both with
     [v] becoming NOT NULL DEFAULT 'q': the plan exists and runs; NULL -> 'q'; t keeps rowids 1, 2 (alias), p is
     renumbered 1, 3 -> 1, 2; the counter of t drops from 4 to 2 *)
@@ -625,8 +669,13 @@ Example C05_engine_nonvacuous :
                      Some 2%Z) /\
   (exists r, RW.w_seg = Some (r, true) /\ PM.alterable (PM.x_t RW.t_new) RW.t_sub = false /\
      exists d' s', SM.exec_seq_all (RW.w_db, RW.w_seq) (map PM.pc_cmd r) = EM.Ok (d', s') /\ SM.seq_get RW.nT s' = Some 2%Z) /\
-  ~ In RW.nA (SM.touched_names RW.w_cs).
+  ~ In RW.nA (SM.touched_names RW.w_cs) /\
+  (* 22: the untouched column id of t: same class, no type change reported *)
+  Atlas.Diff.DiffSqlite.sqlite_type_changed RW.cId RW.cId = Some false /\
+  (* 23: the plan of the two rebuilds contains a DROP TABLE *)
+  (exists p, RW.w_plan = Some p /\ existsb Atlas.Sqlite.PlanProofs.is_drop_table (PM.plan_stmts p) = true).
 Proof.
   split; [exact RW.w_after_eq|]. split; [exact RW.w_seg_ok|].
+  split; [|split; [vm_compute; reflexivity|eexists; split; vm_compute; reflexivity]].
   vm_compute. intros H. repeat (destruct H as [H|H]; [discriminate|]). exact H.
 Qed.
